@@ -851,7 +851,7 @@ impl EmfBuilder {
 enum LineKind {
     // this is a string
     String,
-    // this is a metric
+    // this is a metric, or a per-metric dimension, written to the split entries in `indexes`
     Metric { indexes: bit_set::BitSet<u32> },
     // this is a dimension that needs to be filled
     UnfoundDimension,
@@ -1546,6 +1546,34 @@ impl metrique_writer_core::ValueWriter for ValueWriter<'_, '_> {
                         index,
                     )
                 });
+            if val.index == index
+                && !self.entry.validations.skip_validate_unique
+                && !self.entry.is_allow_unroutable_entries
+            {
+                // the dimensions of a new dimension set are written as string fields of its
+                // entry, so their names must be unique within that entry just like metric names
+                for &(dimension, _) in &key.entry {
+                    let unique = match self
+                        .entry
+                        .validation_map
+                        .entry_ref(&dimension.to_owned())
+                        .or_insert_with(|| LineData {
+                            kind: LineKind::Metric {
+                                indexes: bit_set::BitSet::new(),
+                            },
+                        })
+                        .kind
+                    {
+                        LineKind::Metric { ref mut indexes } => indexes.insert(index.get()),
+                        LineKind::String | LineKind::UnfoundDimension => false,
+                    };
+                    if !unique {
+                        self.entry.error.extend_mut(
+                            ValidationError::invalid("duplicate field").for_field(dimension),
+                        );
+                    }
+                }
+            }
             (&mut val.metrics_buf, &mut val.fields_buf, val.index.into())
         };
         if !self.entry.validations.skip_validate_unique && !self.entry.is_allow_unroutable_entries {
